@@ -335,10 +335,10 @@ def run(pid, prop, known, tier, seed, replay, n_override, t0, log, scratch):
 
     # 1. constants
     K_ok, K_msg = True, ""
-    if prop.get("consts"):
+    with Lock("coq"):
         rc, out = sh([sys.executable, f"{V}/tools/gen_consts.py"], timeout=120)
-        if rc != 0:
-            K_ok, K_msg = False, out[-2000:]
+    if rc != 0:
+        K_ok, K_msg = False, out[-2000:]
     # 2. Coq
     gate = grep_gate()
     cb = coq_build(pid, log)
@@ -515,7 +515,8 @@ def consts_crosscheck(prop):
     comp = dict(l.split("=", 1) for l in out.split("\n") if "=" in l)
     src = open(f"{COQ}/Gen/Consts.v").read()
     bad = []
-    for name in prop["consts"]:
+    for c in prop["consts"]:
+        name = c["coq"]
         m = re.search(r"Definition\s+%s\s*:\s*\w+\s*:=\s*\(?(-?\d+)\)?" % re.escape(name), src)
         if name in comp and m and comp[name].strip() != m.group(1):
             bad.append(f"{name}: Consts.v={m.group(1)} crate={comp[name]}")
